@@ -2,6 +2,6 @@
 import EinoV.Model.C03
 namespace EinoV.Expected.C03
 def facts : EinoV.C03.Facts :=
-  { waitOneRefills := true, doneCap := 1, pushUnderLock := true,
+  { waitOneRefills := true, refillOnErrorPath := true, doneCap := 1, pushUnderLock := true,
     firstTaskInline := true, inlineRemovesFirst := true }
 end EinoV.Expected.C03
